@@ -341,8 +341,10 @@ func (s *symbolizer) toPoly(v ssa.Value, depth int) (poly, error) {
 // floatForm decides, on the SSA expression itself, whether a float64 update
 // is written in a form whose IEEE-754 evaluation is monotone in the required
 // direction for operands in [0,1] (every operation rounds monotonically):
-//   raising:  old + t   with t built from products of values in [0,1] and (1 - x), x in [0,1]  (t >= 0, so fl(old+t) >= old)
-//   lowering: old * f   with f in [0,1]                                                         (fl(old*f) <= old)
+//
+//	raising:  old + t   with t built from products of values in [0,1] and (1 - x), x in [0,1]  (t >= 0, so fl(old+t) >= old)
+//	lowering: old * f   with f in [0,1]                                                         (fl(old*f) <= old)
+//
 // An algebraically equal form such as 1-(1-old)*(1-q) is NOT monotone in
 // floating point: 1-(1-old) already differs from old below 0.5.
 type floatForm struct {
@@ -405,7 +407,10 @@ func (ff *floatForm) unit(v ssa.Value, depth int) bool {
 			return ff.unit(x.X, depth+1) && ff.unit(x.Y, depth+1)
 		case token.SUB:
 			// 1 - u with u in [0,1]
-			if c, ok := x.X.(*ssa.Const); ok && c.Value != nil {
+			one, undoOne := ff.unwrap(x.X)
+			c, isC := one.(*ssa.Const)
+			undoOne()
+			if isC && c.Value != nil {
 				if f, _ := constant.Float64Val(constant.ToFloat(c.Value)); f == 1 {
 					return ff.unit(x.Y, depth+1)
 				}
